@@ -5,6 +5,7 @@ TIER = os.environ.get('VERIF_TIER', 'quick')
 TWIN = os.environ.get('VERIF_TWIN') == '1'
 FIXDIR = os.environ.get('VERIF_FIXDIR', '')
 ITEM = os.environ.get('VERIF_ITEM', '')
+ASPECT = os.environ.get('VERIF_ASPECT', '')    # the property a multi-property harness is deciding in this run
 
 REGISTRY = {}      # (module, function name) -> metadata
 
